@@ -70,7 +70,7 @@ func (lfu *LFUCacheEvictionPolicy) TrackSetAndReturnEvictedKeys(key string, size
 	lfu.evictionChecker.TrackSet(key, size)
 
 	evictedKeys := []string{}
-	for lfu.evictionChecker.ShouldEvict() {
+	for lfu.evictionChecker.ShouldEvict() && lfu.minLFUCacheHeap.Len() > 0 {
 		cacheEntryToEvict := heap.Pop(&lfu.minLFUCacheHeap).(*LFUCacheEntry)
 		lfu.evictionChecker.TrackRemove(cacheEntryToEvict.key)
 		evictedKeys = append(evictedKeys, cacheEntryToEvict.key)
